@@ -32,7 +32,7 @@ NOT_DECIDED = ['every string comparison result', 'the search over trailing seque
 
 def run(ctx):
     for fn in (r1_never_after, r2_check_guard, r3_unmatched_typestate, r4_repr_fallback,
-               r5_comment_only, r5b_code_predicate_on_stripped_lines, r6_summary_flags, r7_got_eval_fresh, r8_trailing_sequences, r9_got_want_roles):
+               r5_comment_only, r5b_code_predicate_on_stripped_lines, r6_summary_flags, r7_got_eval_fresh, r8_trailing_sequences, r9_got_want_roles, r10_single_statement_modes_are_cut):
         ctx.rep.rule(fn, ctx)
 
 
@@ -577,6 +577,12 @@ def r9_got_want_roles(ctx):
     """got and want keep their sides at every call into the checker: same clause as C05.R12"""
     from . import c05
     c05.r12_got_want_roles(ctx, rule='C02.R9')
+
+
+def r10_single_statement_modes_are_cut(ctx):
+    """a want is compared with the value of the LAST statement only if that statement is compiled on its own: same clause as C01.R9"""
+    from . import c01
+    c01.r9_single_statement_modes_are_cut(ctx, rule='C02.R10')
 
 
 # ---------------------------------------------------------------------------
